@@ -444,6 +444,7 @@ fn base_scn(id: String, n: usize, calls: Vec<BCall>, reads: Vec<Vec<usize>>, wri
         tags: vec![],
         calls,
         phases: vec![],
+        tokio: false,
     }
 }
 
@@ -847,7 +848,9 @@ pub fn generate(p: &GenParams, out: &mut Out) {
                 if !sel.take() {
                     continue;
                 }
+                let tk = rng.chance(1, 4);
                 let mut s = base_scn(format!("rr-{i}"), n, calls_of(&e, rng.next()), reads, writes);
+                s.tokio = tk;
                 s.phases.push(runs_phase(vec![c]));
                 let mut r2 = Rng::new(sub);
                 let (mut scn, mut trace) = random_walk(&s, &x, p.hooks || x.signal_inside, 6 * n + 12, &mut r2);
@@ -920,6 +923,7 @@ pub fn generate(p: &GenParams, out: &mut Out) {
                     continue;
                 }
                 let mut s = base_scn(format!("w-{i}"), n, calls_of(&e, 0), vec![], vec![]);
+                s.tokio = sub % 2 == 0;
                 s.phases.push(runs_phase(vec![c]));
                 let mut r2 = Rng::new(sub);
                 let (mut scn, mut trace) = random_walk(&s, &x, false, 8 * n + 12, &mut r2);
@@ -986,6 +990,7 @@ pub fn generate(p: &GenParams, out: &mut Out) {
                     continue;
                 }
                 let mut s = base_scn(format!("sr-{i}"), n, calls_of(&e, rng.next()), reads, writes);
+                s.tokio = sub % 4 == 0;
                 s.phases.push(runs_phase(vec![c]));
                 let mut r2 = Rng::new(sub);
                 let (mut scn, mut trace) = random_walk(&s, &x, p.hooks, 8 * n + 12, &mut r2);
